@@ -31,7 +31,21 @@ def check(ctx):
     rc = runs[0]
     cell = rc.func.value.value if isinstance(rc.func, ast.Attribute) and isinstance(rc.func.value, ast.Attribute) else None
     if not isinstance(cell, ast.Name):
-        raise AnalysisError("C16: bound-call cell variable not recognised")
+        # the BoundCall was unwrapped into a local first
+        recv = rc.func.value if isinstance(rc.func, ast.Attribute) else None
+        unwrapped = None
+        if isinstance(recv, ast.Name):
+            for k, e, p_ in cb.bindings.get(recv.id, []):
+                if k == "assign" and isinstance(e, ast.Attribute) and e.attr == "value" and isinstance(e.value, ast.Name):
+                    unwrapped = (recv.id, e.value)
+        if unwrapped is None:
+            raise AnalysisError("C16: bound-call cell variable not recognised")
+        ctx.ob("C16.G1", f"{cb.short}/bound-call-not-a-local", False, loc(cb, rc),
+               f"the BoundCall is bound to the local `{unwrapped[0]}` of the run callback: when the call fails, the recorded NodeError's "
+               f"traceback pins this frame, so the failed call's argument slots stay referenced until the run ends", norm(rc)[:80])
+        cell = unwrapped[1]
+    else:
+        ctx.ob("C16.G1", f"{cb.short}/bound-call-not-a-local", True, loc(cb, rc), "the BoundCall is reached only through its cell (no local keeps it)")
     clears = [n for n in cb.own_nodes() if isinstance(n, ast.Assign) and norm(n.targets[0]) == f"{cell.id}.value" and
               isinstance(n.value, ast.Constant) and n.value.value is None]
     ctx.floor("C16.G1", "statements clearing the bound-call cell", len(clears), 1)
@@ -73,6 +87,8 @@ def check(ctx):
         bad = [nm for nm in names if any(k == "assign" and isinstance(e, ast.DictComp) and "Slot(" in norm(e.value) for k, e, p_ in prep.bindings.get(nm, []))]
         ctx.ob("C16.G2", f"{prep.short}/result-without-slot-table", not bad, loc(prep, r_), "preparation returns only the bound-call table, output slot, callback and plan" if not bad else
                f"preparation returns the slot table {bad}", norm(r_)[:100])
+    from .extra import rule_result_slots
+    ctx.run(rule_result_slots, "C16.G4")
     # ---------------------------------------------------------------- G3
     free = sorted({n.id for n in cb.own_nodes() if isinstance(n, ast.Name) and isinstance(n.ctx, ast.Load) and m.binding_scope(cb, n.id) is prep})
     ctx.floor("C16.G3", "variables captured by the run callback", len(free), 2)
